@@ -160,6 +160,13 @@ theorem quiet_openStream (cfg : Cfg) (x : Conn) (to : List Char) : Quiet x (open
     · trivial
     · unfold featuresOf; split <;> trivial
 
+theorem quiet_credStep (cfg : Cfg) (x c : Conn) (s : Sasl) (p : Payload) (hj : c.jid = x.jid) :
+    Quiet x (credStep cfg c s p) := by
+  unfold credStep
+  split
+  · exact quiet_failClose _ _ _ _ hj
+  · exact ⟨by simp [checkCredentials_jid, hj], by simp⟩
+
 theorem quiet_authStep (cfg : Cfg) (x : Conn) (v2 : Bool) (m : List Char) (p : Payload) (b : Bool) :
     Quiet x (authStep cfg x v2 m p b) := by
   unfold authStep
@@ -169,7 +176,7 @@ theorem quiet_authStep (cfg : Cfg) (x : Conn) (v2 : Bool) (m : List Char) (p : P
     · simp [dropPending_jid]
     · intro o ho; simp at ho; subst ho; trivial
   · split
-    · refine ⟨by simp [checkCredentials_jid, dropPending_jid], by simp⟩
+    · apply quiet_credStep; simp [dropPending_jid]
     · refine ⟨by simp [dropPending_jid], ?_⟩
       intro o ho; simp at ho; subst ho; trivial
     · apply quiet_failClose; simp [dropPending_jid]
@@ -182,7 +189,10 @@ theorem authHead_authSuccess (fresh : List Char) (c : Conn) (j : List Char) (v2 
   split
   · unfold sasl2Authenticated
     split
-    · exact ⟨j, _, rfl, by intro o ho; simp at ho; subst ho; exact Or.inl trivial⟩
+    · refine ⟨j, [_, _], rfl, ?_⟩
+      intro o ho
+      simp only [List.mem_cons, List.not_mem_nil, or_false] at ho
+      rcases ho with rfl | rfl <;> exact Or.inl trivial
     · refine ⟨j, [_, _, _], rfl, ?_⟩
       intro o ho
       simp only [List.mem_cons, List.not_mem_nil, or_false] at ho
@@ -204,11 +214,14 @@ theorem shape_responseStep (cfg : Cfg) (fresh : List Char) (x : Conn) (v2 : Bool
   split
   · left; apply quiet_disconnect _ _ _ rfl
     intro o ho; simp at ho; subst ho; trivial
-  · simp only []
-    split
-    · left; exact ⟨by simp [checkCredentials_jid], by simp⟩
-    · right; exact authHead_authSuccess _ _ _ _
-    · left; apply quiet_failClose; rfl
+  · split
+    · left; apply quiet_disconnect _ _ _ rfl
+      intro o ho; simp at ho; subst ho; trivial
+    · simp only []
+      split
+      · left; exact quiet_credStep _ _ _ _ _ rfl
+      · right; exact authHead_authSuccess _ _ _ _
+      · left; apply quiet_failClose; rfl
 
 theorem shape_pwReply (cfg : Cfg) (fresh : List Char) (x c0 : Conn) (s : Sasl) (res : CheckRes) (hj : c0.jid = x.jid) :
     Quiet x (pwReply cfg fresh c0 s res) ∨ AuthHead (pwReply cfg fresh c0 s res) := by
@@ -411,15 +424,12 @@ theorem connStep_emit (cfg : Cfg) (fresh : List Char) (x : Conn) (ev : Ev) (st :
 
 /-! ### from connection outputs to server outputs -/
 
-theorem writeTo_mem (s : Server) (src : Nat) (found : List Nat) (mk : Nat → Out) (o : Out)
-    (h : o ∈ writeTo s src found mk) : o = .ub src ∨ ∃ d, o = mk d := by
+theorem writeTo_mem (s : Server) (found : List Nat) (mk : Nat → Out) (o : Out)
+    (h : o ∈ writeTo s found mk) : ∃ d, o = mk d := by
   unfold writeTo at h
-  simp only [List.mem_append, List.mem_map] at h
-  rcases h with h | ⟨d, _, rfl⟩
-  · split at h
-    · simp at h; exact Or.inl h
-    · simp at h
-  · exact Or.inr ⟨d, rfl⟩
+  simp only [List.mem_map] at h
+  obtain ⟨d, _, rfl⟩ := h
+  exact ⟨d, rfl⟩
 
 theorem handleStanza_mem (cfg : Cfg) (s : Server) (src : Nat) (st : Stanza) (o : Out)
     (h : o ∈ handleStanza cfg s src st) :
@@ -429,21 +439,18 @@ theorem handleStanza_mem (cfg : Cfg) (s : Server) (src : Nat) (st : Stanza) (o :
   · split at h
     · split at h
       · split at h
-        · rcases writeTo_mem _ _ _ _ _ h with rfl | ⟨d, rfl⟩
-          · exact Or.inr (Or.inr rfl)
-          · exact Or.inr (Or.inl ⟨d, _, _, rfl⟩)
+        · obtain ⟨d, rfl⟩ := writeTo_mem _ _ _ _ h
+          exact Or.inr (Or.inl ⟨d, _, _, rfl⟩)
         · simp at h
       · simp at h
     · simp at h
   · split at h
-    · rcases writeTo_mem _ _ _ _ _ h with rfl | ⟨d, rfl⟩
-      · exact Or.inr (Or.inr rfl)
-      · exact Or.inl ⟨d, rfl⟩
+    · obtain ⟨d, rfl⟩ := writeTo_mem _ _ _ _ h
+      exact Or.inl ⟨d, rfl⟩
     · split at h
       · split at h
-        · rcases writeTo_mem _ _ _ _ _ h with rfl | ⟨d, rfl⟩
-          · exact Or.inr (Or.inr rfl)
-          · exact Or.inr (Or.inl ⟨d, _, _, rfl⟩)
+        · obtain ⟨d, rfl⟩ := writeTo_mem _ _ _ _ h
+          exact Or.inr (Or.inl ⟨d, _, _, rfl⟩)
         · simp at h
       · simp at h
 
@@ -455,28 +462,30 @@ theorem unregister_mem (s : Server) (c : Nat) (o : Out) (h : o ∈ (unregister s
   · simp at h; exact Or.inl h
   · simp at h; exact h
 
+theorem kickOld_mem (s0 : Server) (c : Nat) (jid : List Char) (o : Out) (h : o ∈ (kickOld s0 c jid).2) :
+    ∃ k, k ≠ c ∧ (o = .send k (.streamError .conflict) ∨ o = .send k .streamEnd ∨ o = .closed k ∨ ∃ j, o = .disconnected k j) := by
+  unfold kickOld at h
+  split at h
+  · rename_i o' _
+    split at h
+    · rename_i hk
+      simp only [List.mem_append, List.mem_cons, List.not_mem_nil, or_false] at h
+      refine ⟨o', hk.1, ?_⟩
+      rcases h with (h | h) | h
+      · exact Or.inl h
+      · exact Or.inr (Or.inl h)
+      · rcases unregister_mem _ _ _ h with h | h
+        · exact Or.inr (Or.inr (Or.inl h))
+        · exact Or.inr (Or.inr (Or.inr ⟨_, h⟩))
+    · simp at h
+  · simp at h
+
 theorem register_mem (s : Server) (c : Nat) (o : Out) (h : o ∈ (register s c).2) :
     o = .connected c (s.conns c).jid ∨ o = .ub c ∨ (∃ k, k ≠ c ∧ (o = .send k (.streamError .conflict) ∨ o = .send k .streamEnd ∨ o = .closed k ∨ ∃ j, o = .disconnected k j)) := by
   unfold register at h
   simp only [List.mem_append, List.mem_cons, List.not_mem_nil, or_false] at h
   rcases h with h | h
-  · right
-    split at h
-    · rename_i o' _
-      split at h
-      · rename_i hk
-        simp only [List.mem_append, List.mem_cons, List.not_mem_nil, or_false] at h
-        refine Or.inr ⟨o', hk.1, ?_⟩
-        rcases h with (h | h) | h
-        · exact Or.inl h
-        · exact Or.inr (Or.inl h)
-        · rcases unregister_mem _ _ _ h with h | h
-          · exact Or.inr (Or.inr (Or.inl h))
-          · exact Or.inr (Or.inr (Or.inr ⟨_, h⟩))
-      · split at h
-        · simp at h; exact Or.inl h
-        · simp at h
-    · simp at h
+  · exact Or.inr (Or.inr (kickOld_mem _ _ _ _ h))
   · exact Or.inl h
 
 theorem applyOut_needsAuth (cfg : Cfg) (s : Server) (c0 : Nat) (co : COut) (o : Out) (c : Nat)
@@ -545,15 +554,11 @@ theorem Closes.trans {a b c : Conn} (h1 : Closes a b) (h2 : Closes b c) : Closes
 theorem Closes.jid {a b : Conn} (h : Closes a b) : b.jid = a.jid := by
   rcases h with rfl | rfl <;> rfl
 
-theorem unregister_conns (s : Server) (c : Nat) : (unregister s c).1.conns = s.conns := by
-  unfold unregister
-  simp only []
-  split <;> rfl
+theorem unregister_conns (s : Server) (c : Nat) : (unregister s c).1.conns = s.conns := rfl
 
-theorem register_conns (s : Server) (c i : Nat) :
-    Closes (s.conns i) ((register s c).1.conns i) ∧ (i = c → (register s c).1.conns i = s.conns i) := by
-  unfold register
-  simp only []
+theorem kickOld_conns (s0 : Server) (c : Nat) (jid : List Char) (i : Nat) :
+    Closes (s0.conns i) ((kickOld s0 c jid).1.conns i) ∧ (i = c → (kickOld s0 c jid).1.conns i = s0.conns i) := by
+  unfold kickOld
   split
   · rename_i o _
     split
@@ -565,8 +570,12 @@ theorem register_conns (s : Server) (c i : Nat) :
         exact ⟨Or.inr rfl, fun h => absurd h hk.1⟩
       · simp only [hi, if_false]
         exact ⟨Or.inl rfl, fun _ => trivial⟩
-    · split <;> exact ⟨Or.inl rfl, fun _ => rfl⟩
+    · exact ⟨Or.inl rfl, fun _ => rfl⟩
   · exact ⟨Or.inl rfl, fun _ => rfl⟩
+
+theorem register_conns (s : Server) (c i : Nat) :
+    Closes (s.conns i) ((register s c).1.conns i) ∧ (i = c → (register s c).1.conns i = s.conns i) :=
+  kickOld_conns (dropEntries s c) c (s.conns c).jid i
 
 theorem applyOut_conns (cfg : Cfg) (s : Server) (c0 : Nat) (co : COut) (i : Nat) :
     Closes (s.conns i) ((applyOut cfg s c0 co).1.conns i) ∧ (i = c0 → (applyOut cfg s c0 co).1.conns i = s.conns i) := by
@@ -711,9 +720,10 @@ structure Live (cfg : Cfg) (A : List Char → Prop) (H : Payload → Prop) (x : 
   /-- an outstanding password reply belongs to the current PLAIN object and is the checker's verdict on
   exactly the user and password that object holds -/
   pw_ok : ∀ res, Pending.pw res ∈ x.pending →
-    ∃ s, x.sasl = some s ∧ s.mech = .plain ∧ s.step = 1 ∧ res = cfg.check s.user s.pass ∧ H (.creds s.user s.pass)
+    ∃ s, x.sasl = some s ∧ s.mech = .plain ∧ s.step = 1 ∧ res = cfg.check s.user s.pass ∧ H (.creds s.user s.pass) ∧
+      ¬ badName s.user
   /-- an outstanding digest reply is the checker's digest for the user named in the raw response it carries -/
-  dg_ok : ∀ res u sec, Pending.dg res u sec ∈ x.pending → res = cfg.digestOf u ∧ ∃ q, H (.dresp u sec q)
+  dg_ok : ∀ res u sec, Pending.dg res u sec ∈ x.pending → res = cfg.digestOf u ∧ ¬ badName u ∧ ∃ q, H (.dresp u sec q)
   sasl_ok : ∀ s, x.sasl = some s → SaslOk A s
 
 structure ConnInv (cfg : Cfg) (A : List Char → Prop) (H : Payload → Prop) (x : Conn) : Prop where
@@ -725,8 +735,8 @@ theorem ConnInv.mono {cfg : Cfg} {A A' : List Char → Prop} {H H' : Payload →
   jid_ok := fun hj => let ⟨u, hu, hjid⟩ := h.jid_ok hj; ⟨u, hA u hu, hjid⟩
   live := fun hc =>
     let l := h.live hc
-    { pw_ok := fun res hm => let ⟨s, h1, h2, h3, h4, h5⟩ := l.pw_ok res hm; ⟨s, h1, h2, h3, h4, hH _ h5⟩
-      dg_ok := fun res u sec hm => let ⟨h1, q, h2⟩ := l.dg_ok res u sec hm; ⟨h1, q, hH _ h2⟩
+    { pw_ok := fun res hm => let ⟨s, h1, h2, h3, h4, h5, h6⟩ := l.pw_ok res hm; ⟨s, h1, h2, h3, h4, hH _ h5, h6⟩
+      dg_ok := fun res u sec hm => let ⟨h1, hb, q, h2⟩ := l.dg_ok res u sec hm; ⟨h1, hb, q, hH _ h2⟩
       sasl_ok := fun s hs =>
         let k := l.sasl_ok s hs
         { step2 := fun a b => hA _ (k.step2 a b), step1 := k.step1, pos := k.pos } }
@@ -809,6 +819,66 @@ theorem fresh_respond (m : Mech) (p : Payload) :
     exact { step2 := by simp, step1 := by simp, pos := by simp }
   · simp [Sasl.respond, respondAnon]
 
+theorem checkCredentials_plain (c : Conn) (s : Sasl) (p : Payload) (hm : s.mech = .plain) :
+    checkCredentials cfg c s p = { c with pending := c.pending ++ [.pw (cfg.check s.user s.pass)] } := by
+  simp [checkCredentials, hm]
+
+theorem checkCredentials_digest (c : Conn) (s : Sasl) (u sec : List Char) (q : Bool) (hm : s.mech = .digest) :
+    checkCredentials cfg c s (.dresp u sec q) = { c with pending := c.pending ++ [.dg (cfg.digestOf s.user) u sec] } := by
+  simp [checkCredentials, hm]
+
+/-- the name guard, then the request to the checker: the new outstanding reply is for the current object's user,
+whose name is well-formed -/
+theorem inv_credStep (c : Conn) (s : Sasl) (p : Payload)
+    (hj : c.jid ≠ [] → ∃ u, A u ∧ JidOf cfg u c.jid) (hsasl : c.sasl = some s)
+    (hdg : ∀ res u sec, Pending.dg res u sec ∈ c.pending → res = cfg.digestOf u ∧ ¬ badName u ∧ ∃ q, H (.dresp u sec q))
+    (hnopw : ∀ res, Pending.pw res ∉ c.pending)
+    (hnew : (s.mech = .plain ∧ s.step = 1 ∧ H (.creds s.user s.pass)) ∨
+            (s.mech = .digest ∧ s.step = 1 ∧ s.digest = none ∧ ∃ sec, p = .dresp s.user sec true ∧ H p)) :
+    ConnInv cfg A H (credStep cfg c s p).conn := by
+  unfold credStep
+  split
+  · exact inv_failClose _ _ _ hj
+  · rename_i hgood
+    rcases hnew with ⟨hm, hstep, hH⟩ | ⟨hm, hstep, hd, sec, hp, hH⟩
+    · rw [checkCredentials_plain _ _ _ hm]
+      refine ⟨hj, fun _ => ⟨?_, ?_, ?_⟩⟩
+      · intro res hmem
+        simp only [List.mem_append, List.mem_cons, List.not_mem_nil, or_false] at hmem
+        rcases hmem with hmem | hmem
+        · exact absurd hmem (hnopw res)
+        · injection hmem with hmem
+          exact ⟨s, hsasl, hm, hstep, hmem, hH, hgood⟩
+      · intro res u' sec' hmem
+        simp only [List.mem_append, List.mem_cons, List.not_mem_nil, or_false] at hmem
+        rcases hmem with hmem | hmem
+        · exact hdg res u' sec' hmem
+        · cases hmem
+      · intro s' hs'
+        rw [show ({ c with pending := c.pending ++ [Pending.pw (cfg.check s.user s.pass)] } : Conn).sasl = c.sasl from rfl, hsasl] at hs'
+        injection hs' with hs'; subst hs'
+        exact saslOk_plain _ hm
+    · rw [hp, checkCredentials_digest _ _ _ _ _ hm]
+      refine ⟨hj, fun _ => ⟨?_, ?_, ?_⟩⟩
+      · intro res hmem
+        simp only [List.mem_append, List.mem_cons, List.not_mem_nil, or_false] at hmem
+        rcases hmem with hmem | hmem
+        · exact absurd hmem (hnopw res)
+        · cases hmem
+      · intro res u' sec' hmem
+        simp only [List.mem_append, List.mem_cons, List.not_mem_nil, or_false] at hmem
+        rcases hmem with hmem | hmem
+        · exact hdg res u' sec' hmem
+        · injection hmem with h1' h2' h3'
+          subst h1' h2' h3'
+          exact ⟨rfl, hgood, true, by rw [← hp]; exact hH⟩
+      · intro s' hs'
+        rw [show ({ c with pending := c.pending ++ [Pending.dg (cfg.digestOf s.user) s.user sec] } : Conn).sasl = c.sasl from rfl, hsasl] at hs'
+        injection hs' with hs'; subst hs'
+        exact { step2 := fun _ h2 => by omega
+                step1 := fun _ _ => hd
+                pos := fun _ => by omega }
+
 theorem inv_authStep (x : Conn) (v2 : Bool) (m : List Char) (p : Payload) (b : Bool) (h : ConnInv cfg A H x)
     (hev : H p) : ConnInv cfg A H (authStep cfg x v2 m p b).conn := by
   unfold authStep
@@ -825,16 +895,14 @@ theorem inv_authStep (x : Conn) (v2 : Bool) (m : List Char) (p : Payload) (b : B
     · rename_i hr
       obtain ⟨hm, u, pw, hpp, hs1⟩ := hfr.1 hr
       rw [hs1]
-      refine ⟨hjid, fun _ => ⟨?_, ?_, ?_⟩⟩
-      · intro res hm
-        simp only [checkCredentials, hp, List.nil_append, List.mem_cons, List.not_mem_nil, or_false] at hm
-        injection hm with hm
-        exact ⟨_, rfl, rfl, rfl, hm, by rw [← hpp]; exact hev⟩
-      · intro res u' sec hm
-        simp [checkCredentials, hp] at hm
-      · intro s hs
-        simp only [checkCredentials] at hs
-        injection hs with hs; subst hs; exact saslOk_plain _ rfl
+      refine inv_credStep { c0 with sasl := some { mech := .plain, user := u, pass := pw, step := 1 } }
+        { mech := .plain, user := u, pass := pw, step := 1 } p hjid rfl ?_ ?_ (Or.inl ⟨rfl, rfl, by rw [← hpp]; exact hev⟩)
+      · intro res u' sec hmem
+        have hmem' : Pending.dg res u' sec ∈ c0.pending := hmem
+        rw [hp] at hmem'; cases hmem'
+      · intro res hmem
+        have hmem' : Pending.pw res ∈ c0.pending := hmem
+        rw [hp] at hmem'; cases hmem'
     · rename_i ch hr
       refine ConnInv.of_no_pending (y := { c0 with sasl := _ }) hp hjid ?_
       intro s hs; injection hs with hs; subst hs
@@ -944,14 +1012,6 @@ theorem inv_authSuccess (fresh : List Char) (c : Conn) (u : List Char) (v2 : Boo
     · exact ⟨fun _ => ⟨u, hu, Or.inl rfl⟩, fun hc => (hl hc).congr (fun _ h => h) rfl⟩
   · exact ⟨fun _ => ⟨u, hu, Or.inl rfl⟩, fun hc => (hl hc).congr (fun _ h => h) rfl⟩
 
-theorem checkCredentials_plain (c : Conn) (s : Sasl) (p : Payload) (hm : s.mech = .plain) :
-    checkCredentials cfg c s p = { c with pending := c.pending ++ [.pw (cfg.check s.user s.pass)] } := by
-  simp [checkCredentials, hm]
-
-theorem checkCredentials_digest (c : Conn) (s : Sasl) (u sec : List Char) (q : Bool) (hm : s.mech = .digest) :
-    checkCredentials cfg c s (.dresp u sec q) = { c with pending := c.pending ++ [.dg (cfg.digestOf s.user) u sec] } := by
-  simp [checkCredentials, hm]
-
 theorem inv_responseStep (fresh : List Char) (x : Conn) (v2 : Bool) (p : Payload) (h : ConnInv cfg A H x)
     (hx : x.closed = false) (hev : H p) : ConnInv cfg A H (responseStep cfg fresh x v2 p).conn := by
   have hl := h.live hx
@@ -960,71 +1020,41 @@ theorem inv_responseStep (fresh : List Char) (x : Conn) (v2 : Bool) (p : Payload
   · exact inv_disconnect _ _ h.jid_ok
   · rename_i s hs
     have hok := hl.sasl_ok s hs
-    simp only []
     split
-    · rename_i hr
-      refine ⟨by simp only [checkCredentials_jid]; exact h.jid_ok, fun _ => ?_⟩
-      rcases respond_inputNeeded hr with ⟨hm, h0, u, pw, hp, hs1⟩ | ⟨hm, h1, hd, u, sec, hp, hs1⟩
-      · -- PLAIN object at step 0: no password reply can be outstanding for it
-        have hnopw : ∀ res, Pending.pw res ∉ x.pending := by
-          intro res hmem
-          obtain ⟨s', hs', _, hstep, _⟩ := hl.pw_ok res hmem
-          rw [hs] at hs'; injection hs' with hs'; subst hs'
-          omega
-        rw [hs1, checkCredentials_plain _ { s with user := u, pass := pw, step := 1 } _ hm]
-        refine ⟨?_, ?_, ?_⟩
+    · exact inv_disconnect _ _ h.jid_ok
+    · simp only []
+      split
+      · rename_i hr
+        rcases respond_inputNeeded hr with ⟨hm, h0, u, pw, hp, hs1⟩ | ⟨hm, h1, hd, u, sec, hp, hs1⟩
+        · -- PLAIN object at step 0: no password reply can be outstanding for it
+          have hnopw : ∀ res, Pending.pw res ∉ x.pending := by
+            intro res hmem
+            obtain ⟨s', hs', _, hstep, _⟩ := hl.pw_ok res hmem
+            rw [hs] at hs'; injection hs' with hs'; subst hs'
+            omega
+          rw [hs1]
+          exact inv_credStep _ _ _ h.jid_ok rfl hl.dg_ok hnopw (Or.inl ⟨hm, rfl, by rw [← hp]; exact hev⟩)
+        · have hnopw : ∀ res, Pending.pw res ∉ x.pending := by
+            intro res hmem
+            obtain ⟨s', hs', hpl, _⟩ := hl.pw_ok res hmem
+            rw [hs] at hs'; injection hs' with hs'; subst hs'
+            rw [hm] at hpl; cases hpl
+          rw [hs1]
+          exact inv_credStep _ _ _ h.jid_ok rfl hl.dg_ok hnopw (Or.inr ⟨hm, h1, hd, sec, hp, hev⟩)
+      · rename_i hr
+        obtain ⟨hm, h2, hs1⟩ := respond_succeeded hok hr
+        rw [hs1]
+        apply inv_authSuccess fresh _ s.user v2 (hok.step2 hm h2)
+        intro _
+        refine ⟨?_, hl.dg_ok, ?_⟩
         · intro res hmem
-          simp only [List.mem_append, List.mem_cons, List.not_mem_nil, or_false] at hmem
-          rcases hmem with hmem | hmem
-          · exact absurd hmem (hnopw res)
-          · injection hmem with hmem
-            exact ⟨{ s with user := u, pass := pw, step := 1 }, rfl, hm, rfl, hmem, by rw [← hp]; exact hev⟩
-        · intro res u' sec hmem
-          simp only [List.mem_append, List.mem_cons, List.not_mem_nil, or_false] at hmem
-          rcases hmem with hmem | hmem
-          · exact hl.dg_ok res u' sec hmem
-          · cases hmem
-        · intro s' hs'
-          injection hs' with hs'; subst hs'
-          exact saslOk_plain _ hm
-      · have hnopw : ∀ res, Pending.pw res ∉ x.pending := by
-          intro res hmem
           obtain ⟨s', hs', hpl, _⟩ := hl.pw_ok res hmem
           rw [hs] at hs'; injection hs' with hs'; subst hs'
           rw [hm] at hpl; cases hpl
-        rw [hs1, hp, checkCredentials_digest _ { s with user := u } _ _ _ hm]
-        refine ⟨?_, ?_, ?_⟩
-        · intro res hmem
-          simp only [List.mem_append, List.mem_cons, List.not_mem_nil, or_false] at hmem
-          rcases hmem with hmem | hmem
-          · exact absurd hmem (hnopw res)
-          · cases hmem
-        · intro res u' sec' hmem
-          simp only [List.mem_append, List.mem_cons, List.not_mem_nil, or_false] at hmem
-          rcases hmem with hmem | hmem
-          · exact hl.dg_ok res u' sec' hmem
-          · injection hmem with h1' h2' h3'
-            subst h1' h2' h3'
-            exact ⟨rfl, true, by rw [← hp]; exact hev⟩
         · intro s' hs'
           injection hs' with hs'; subst hs'
-          exact { step2 := fun _ h2 => by simp only [] at h2; omega
-                  step1 := fun _ _ => hd
-                  pos := fun _ => by simp only []; omega }
-    · rename_i hr
-      obtain ⟨hm, h2, hs1⟩ := respond_succeeded hok hr
-      rw [hs1]
-      apply inv_authSuccess fresh _ s.user v2 (hok.step2 hm h2)
-      intro _
-      refine ⟨?_, hl.dg_ok, ?_⟩
-      · intro res hmem
-        obtain ⟨s', hs', hpl, _⟩ := hl.pw_ok res hmem
-        rw [hs] at hs'; injection hs' with hs'; subst hs'
-        rw [hm] at hpl; cases hpl
-      · intro s' hs'
-        injection hs' with hs'; subst hs'
-        exact { step2 := fun _ h => by simp at h, step1 := fun _ h => by simp at h, pos := fun _ => by simp }
-    · exact inv_failClose _ _ _ h.jid_ok
+          exact { step2 := fun _ h => by simp at h, step1 := fun _ h => by simp at h, pos := fun _ => by simp }
+      · exact inv_failClose _ _ _ h.jid_ok
 
 end handlers2
 
@@ -1054,8 +1084,8 @@ theorem inv_dgVerify (c0 : Conn) (s : Sasl) (d : Option (List Char)) (u sec : Li
   · exact inv_failClose _ _ _ hj
 
 theorem inv_deliverReply (fresh : List Char) (x : Conn) (i : Nat) (h : ConnInv cfg A H x) (hx : x.closed = false)
-    (hA1 : ∀ u p, H (.creds u p) → cfg.check u p = .ok → A u)
-    (hA2 : ∀ u sec q, H (.dresp u sec q) → cfg.digestOf u = .digest sec → A u) :
+    (hA1 : ∀ u p, H (.creds u p) → cfg.check u p = .ok → ¬ badName u → A u)
+    (hA2 : ∀ u sec q, H (.dresp u sec q) → cfg.digestOf u = .digest sec → ¬ badName u → A u) :
     ConnInv cfg A H (deliverReply cfg fresh x i).conn := by
   have hl := h.live hx
   unfold deliverReply
@@ -1071,20 +1101,20 @@ theorem inv_deliverReply (fresh : List Char) (x : Conn) (i : Nat) (h : ConnInv c
     · rename_i s hs
       split
       · rename_i res
-        obtain ⟨s', hs', hpl, hstep, hres, hH⟩ := hl.pw_ok res hmem
+        obtain ⟨s', hs', hpl, hstep, hres, hH, hgood⟩ := hl.pw_ok res hmem
         rw [hs] at hs'; injection hs' with hs'; subst hs'
         cases res with
-        | ok => exact inv_authSuccess fresh _ s.user _ (hA1 _ _ hH hres.symm) (fun _ => hl0)
+        | ok => exact inv_authSuccess fresh _ s.user _ (hA1 _ _ hH hres.symm hgood) (fun _ => hl0)
         | bad => exact inv_failClose _ _ _ h.jid_ok
         | temp => exact inv_failClose _ _ _ h.jid_ok
       · rename_i res u sec
-        obtain ⟨hres, q, hH⟩ := hl.dg_ok res u sec hmem
+        obtain ⟨hres, hgood, q, hH⟩ := hl.dg_ok res u sec hmem
         cases res with
         | temp => exact inv_failClose _ _ _ h.jid_ok
         | digest d =>
           refine inv_dgVerify _ s (some d) u sec h.jid_ok hl0 hs ?_
           intro hd; injection hd with hd
-          exact hA2 u sec q hH (by rw [← hres, hd])
+          exact hA2 u sec q hH (by rw [← hres, hd]) hgood
         | nouser =>
           refine inv_dgVerify _ s none u sec h.jid_ok hl0 hs ?_
           intro hd; cases hd
@@ -1115,8 +1145,8 @@ theorem inv_clientGate (x : Conn) (r : CRes) (h : ConnInv cfg A H x)
 /-- **one connection step preserves the invariant** -/
 theorem inv_connStep (fresh : List Char) (x : Conn) (ev : Ev) (h : ConnInv cfg A H x)
     (hev : ∀ p, ev.payload = some p → H p)
-    (hA1 : ∀ u p, H (.creds u p) → cfg.check u p = .ok → A u)
-    (hA2 : ∀ u sec q, H (.dresp u sec q) → cfg.digestOf u = .digest sec → A u) :
+    (hA1 : ∀ u p, H (.creds u p) → cfg.check u p = .ok → ¬ badName u → A u)
+    (hA2 : ∀ u sec q, H (.dresp u sec q) → cfg.digestOf u = .digest sec → ¬ badName u → A u) :
     ConnInv cfg A H (connStep cfg fresh x ev).conn := by
   unfold connStep
   split
@@ -1135,7 +1165,8 @@ theorem inv_connStep (fresh : List Char) (x : Conn) (ev : Ev) (h : ConnInv cfg A
     | abort v2 =>
       apply inv_gate x _ h
       split
-      · exact h.congr rfl (fun _ he => he) rfl rfl
+      · exact ConnInv.of_no_pending (y := dropPending { x with s2req := none, sasl := none }) rfl h.jid_ok
+          (fun s hs => by cases hs)
       · exact h
     | closeStream => exact inv_gate x _ h (inv_disconnect _ _ h.jid_ok)
     | bind res =>
@@ -1162,8 +1193,12 @@ end handlers4
 /-- connection `c` has sent the SASL payload `p` -/
 def Sent (hist : List (Nat × Ev)) (c : Nat) (p : Payload) : Prop := ∃ ev, (c, ev) ∈ hist ∧ ev.payload = some p
 
+/-- approved by the checker AND a well-formed name (the server's own guard) -/
+def GoodApproved (cfg : Cfg) (hist : List (Nat × Ev)) (c : Nat) (u : List Char) : Prop :=
+  Approved cfg hist c u ∧ ¬ badName u
+
 def ServInv (cfg : Cfg) (hist : List (Nat × Ev)) (s : Server) : Prop :=
-  ∀ c, ConnInv cfg (Approved cfg hist c) (Sent hist c) (s.conns c)
+  ∀ c, ConnInv cfg (GoodApproved cfg hist c) (Sent hist c) (s.conns c)
 
 theorem approved_of_creds {cfg : Cfg} {hist : List (Nat × Ev)} {c : Nat} (u p : List Char)
     (h : Sent hist c (.creds u p)) (hok : cfg.check u p = .ok) : Approved cfg hist c u := by
@@ -1183,8 +1218,8 @@ theorem servInv_step (cfg : Cfg) (hist : List (Nat × Ev)) (s : Server) (op : Na
     (hinv : ServInv cfg hist s) :
     ServInv cfg (hist ++ [op]) (step cfg s op).1 := by
   intro c
-  have hmono : ConnInv cfg (Approved cfg (hist ++ [op]) c) (Sent (hist ++ [op]) c) (s.conns c) :=
-    (hinv c).mono (fun u hu => hu.mono (fun x hx => by simp [hx]))
+  have hmono : ConnInv cfg (GoodApproved cfg (hist ++ [op]) c) (Sent (hist ++ [op]) c) (s.conns c) :=
+    (hinv c).mono (fun u hu => ⟨hu.1.mono (fun x hx => by simp [hx]), hu.2⟩)
       (fun p ⟨ev, hm, hp⟩ => ⟨ev, by simp [hm], hp⟩)
   have hc := step_conns cfg s op c
   by_cases hcop : c = op.1
@@ -1193,8 +1228,8 @@ theorem servInv_step (cfg : Cfg) (hist : List (Nat × Ev)) (s : Server) (op : Na
     apply inv_connStep _ _ _ hmono
     · intro p hp
       exact ⟨op.2, by simp, hp⟩
-    · exact fun u p => approved_of_creds u p
-    · exact fun u sec q => approved_of_dresp u sec q
+    · exact fun u p h1 h2 h3 => ⟨approved_of_creds u p h1 h2, h3⟩
+    · exact fun u sec q h1 h2 h3 => ⟨approved_of_dresp u sec q h1 h2, h3⟩
   · rcases hc.2 hcop with h | h
     · rw [h]; exact hmono
     · rw [h]; exact ConnInv.of_closed rfl hmono.jid_ok
@@ -1350,5 +1385,348 @@ theorem gpApproves_of_approves (domain : List Char) (gp : List Char → PwRes) (
       | temp => simp [hg] at h2
     | empty => simp [hp] at h
     | junk => simp [hp] at h
+
+
+/-! ### the routing tables only reference open connections (repo commit c3084c3) -/
+
+/-- a step either leaves the connection's `closed` flag alone, or reports the close (and binds nothing) -/
+def CloseOk (x : Conn) (r : CRes) : Prop :=
+  r.conn.closed = x.closed ∨ (COut.closed ∈ r.outs ∧ COut.bound ∉ r.outs)
+
+theorem closeOk_disconnect (x c : Conn) (pre : List COut) (hpre : COut.bound ∉ pre) : CloseOk x (disconnect c pre) := by
+  right
+  simp [disconnect, hpre]
+
+theorem closeOk_failClose (x c : Conn) (v2 : Bool) (cond : Cond) : CloseOk x (failClose c v2 cond) := by
+  unfold failClose
+  apply closeOk_disconnect
+  simp
+
+theorem closeOk_ubRes (x c : Conn) : CloseOk x (ubRes c) := by
+  right; simp [ubRes]
+
+theorem closeOk_credStep (cfg : Cfg) (x c : Conn) (s : Sasl) (p : Payload) (hc : c.closed = x.closed) :
+    CloseOk x (credStep cfg c s p) := by
+  unfold credStep
+  split
+  · exact closeOk_failClose _ _ _ _
+  · left
+    show (checkCredentials cfg c s p).closed = x.closed
+    unfold checkCredentials
+    split
+    · exact hc
+    · split <;> exact hc
+    · exact hc
+
+theorem closeOk_authSuccess (fresh : List Char) (x c : Conn) (j : List Char) (v2 : Bool) (hc : c.closed = x.closed) :
+    CloseOk x (authSuccess fresh c j v2) := by
+  unfold authSuccess
+  simp only []
+  split
+  · unfold sasl2Authenticated
+    split
+    · right; simp
+    · left; exact hc
+    · left; exact hc
+  · left; exact hc
+
+theorem closeOk_openStream (cfg : Cfg) (x : Conn) (to : List Char) : CloseOk x (openStream cfg x to) := by
+  unfold openStream
+  simp only []
+  split
+  · apply closeOk_disconnect; simp
+  · left; rfl
+
+theorem closeOk_authStep (cfg : Cfg) (x : Conn) (v2 : Bool) (m : List Char) (p : Payload) (b : Bool) :
+    CloseOk x (authStep cfg x v2 m p b) := by
+  unfold authStep
+  simp only []
+  split
+  · apply closeOk_disconnect; simp
+  · split
+    · exact closeOk_credStep _ _ _ _ _ rfl
+    · left; rfl
+    · exact closeOk_failClose _ _ _ _
+
+theorem closeOk_responseStep (cfg : Cfg) (fresh : List Char) (x : Conn) (v2 : Bool) (p : Payload) :
+    CloseOk x (responseStep cfg fresh x v2 p) := by
+  unfold responseStep
+  split
+  · apply closeOk_disconnect; simp
+  · split
+    · apply closeOk_disconnect; simp
+    · simp only []
+      split
+      · exact closeOk_credStep _ _ _ _ _ rfl
+      · exact closeOk_authSuccess _ _ _ _ _ rfl
+      · exact closeOk_failClose _ _ _ _
+
+theorem closeOk_pwReply (cfg : Cfg) (fresh : List Char) (x c0 : Conn) (s : Sasl) (res : CheckRes) (hc : c0.closed = x.closed) :
+    CloseOk x (pwReply cfg fresh c0 s res) := by
+  cases res
+  · exact closeOk_authSuccess _ _ _ _ _ hc
+  · exact closeOk_failClose _ _ _ _
+  · exact closeOk_failClose _ _ _ _
+
+theorem closeOk_dgVerify (x c0 : Conn) (s : Sasl) (d : Option (List Char)) (u sec : List Char) (hc : c0.closed = x.closed) :
+    CloseOk x (dgVerify c0 s d u sec) := by
+  unfold dgVerify
+  simp only []
+  split
+  · left; exact hc
+  · exact closeOk_failClose _ _ _ _
+
+theorem closeOk_dgReply (x c0 : Conn) (s : Sasl) (u sec : List Char) (res : DigRes) (hc : c0.closed = x.closed) :
+    CloseOk x (dgReply c0 s u sec res) := by
+  cases res
+  · exact closeOk_dgVerify _ _ _ _ _ _ hc
+  · exact closeOk_dgVerify _ _ _ _ _ _ hc
+  · exact closeOk_failClose _ _ _ _
+
+theorem closeOk_deliverReply (cfg : Cfg) (fresh : List Char) (x : Conn) (i : Nat) :
+    CloseOk x (deliverReply cfg fresh x i) := by
+  unfold deliverReply
+  split
+  · left; rfl
+  · simp only []
+    split
+    · exact closeOk_ubRes _ _
+    · split
+      · exact closeOk_pwReply _ _ _ _ _ _ rfl
+      · exact closeOk_dgReply _ _ _ _ _ _ rfl
+
+theorem closeOk_gate (x : Conn) (r : CRes) (h : CloseOk x r) : CloseOk x (gate x r) := by
+  unfold gate
+  split
+  · left; rfl
+  · split
+    · exact h
+    · left; rfl
+
+theorem closeOk_clientGate (x : Conn) (r : CRes) (h : CloseOk x r) : CloseOk x (clientGate x r) := by
+  unfold clientGate
+  split
+  · apply closeOk_disconnect; simp
+  · exact h
+
+theorem closeOk_connStep (cfg : Cfg) (fresh : List Char) (x : Conn) (ev : Ev) : CloseOk x (connStep cfg fresh x ev) := by
+  unfold connStep
+  split
+  · left; rfl
+  · cases ev with
+    | deliver i => exact closeOk_deliverReply cfg fresh x i
+    | openStream to =>
+      simp only []
+      split
+      · left; rfl
+      · exact closeOk_openStream cfg x to
+    | auth v2 m p b => exact closeOk_gate _ _ (closeOk_authStep cfg x v2 m p b)
+    | response v2 p => exact closeOk_gate _ _ (closeOk_responseStep cfg fresh x v2 p)
+    | abort v2 =>
+      apply closeOk_gate
+      split
+      · left; rfl
+      · left; rfl
+    | closeStream => exact closeOk_gate _ _ (closeOk_disconnect _ _ _ (by simp))
+    | bind res => exact closeOk_gate _ _ (closeOk_clientGate _ _ (Or.inl rfl))
+    | session => exact closeOk_gate _ _ (closeOk_clientGate _ _ (Or.inl rfl))
+    | stanza st =>
+      apply closeOk_gate; apply closeOk_clientGate
+      unfold clientStanza
+      split <;> exact Or.inl rfl
+
+
+
+/-- every routing-table entry, except possibly those of connection `c0`, points to an open connection -/
+def OthersOpen (c0 : Nat) (s : Server) : Prop :=
+  ∀ e, (e ∈ s.byJid ∨ e ∈ s.byBare) → e.2 ≠ c0 → (s.conns e.2).closed = false
+
+/-- no routing-table entry points to connection `c0` -/
+def NoRef (c0 : Nat) (s : Server) : Prop := ∀ e, (e ∈ s.byJid ∨ e ∈ s.byBare) → e.2 ≠ c0
+
+/-- every routing-table entry points to an open connection -/
+def TablesOpen (s : Server) : Prop := ∀ e, (e ∈ s.byJid ∨ e ∈ s.byBare) → (s.conns e.2).closed = false
+
+theorem dropEntries_mem (s : Server) (c : Nat) (e : List Char × Nat)
+    (h : e ∈ (dropEntries s c).byJid ∨ e ∈ (dropEntries s c).byBare) :
+    (e ∈ s.byJid ∨ e ∈ s.byBare) ∧ e.2 ≠ c := by
+  unfold dropEntries at h
+  simp only [List.mem_filter, decide_eq_true_eq] at h
+  rcases h with h | h
+  · exact ⟨Or.inl h.1, h.2⟩
+  · exact ⟨Or.inr h.1, h.2⟩
+
+theorem insertEntry_mem (s2 : Server) (c : Nat) (jid : List Char) (e : List Char × Nat)
+    (h : e ∈ (insertEntry s2 c jid).byJid ∨ e ∈ (insertEntry s2 c jid).byBare) :
+    e.2 = c ∨ (e ∈ s2.byJid ∨ e ∈ s2.byBare) := by
+  unfold insertEntry at h
+  simp only [] at h
+  rcases h with h | h
+  · simp only [List.mem_cons, List.mem_filter] at h
+    rcases h with rfl | h
+    · exact Or.inl rfl
+    · exact Or.inr (Or.inl h.1)
+  · split at h
+    · exact Or.inr (Or.inr h)
+    · simp only [List.mem_cons] at h
+      rcases h with rfl | h
+      · exact Or.inl rfl
+      · exact Or.inr (Or.inr h)
+
+/-- the conflict kick keeps "everybody else's entries point to open connections" -/
+theorem kickOld_othersOpen (s0 : Server) (c : Nat) (jid : List Char) (h : OthersOpen c s0) :
+    OthersOpen c (kickOld s0 c jid).1 ∧ (NoRef c s0 → NoRef c (kickOld s0 c jid).1) := by
+  unfold kickOld
+  split
+  · rename_i o _
+    split
+    · rename_i hk
+      constructor
+      · intro e he hne
+        obtain ⟨hin, hno⟩ := dropEntries_mem _ o e he
+        show ((setConn s0 o _).conns e.2).closed = false
+        simp only [setConn, hno, if_false]
+        exact h e hin hne
+      · intro hn e he
+        exact hn e (dropEntries_mem _ o e he).1
+    · exact ⟨h, fun x => x⟩
+  · exact ⟨h, fun x => x⟩
+
+theorem register_othersOpen (s : Server) (c : Nat) (h : OthersOpen c s) : OthersOpen c (register s c).1 := by
+  intro e he hne
+  unfold register at he ⊢
+  simp only [] at he ⊢
+  rcases insertEntry_mem _ c _ e he with h1 | h1
+  · exact absurd h1 hne
+  · have h0 : OthersOpen c (dropEntries s c) := fun e' he' hne' => h e' (dropEntries_mem s c e' he').1 hne'
+    exact (kickOld_othersOpen (dropEntries s c) c (s.conns c).jid h0).1 e h1 hne
+
+theorem applyOut_othersOpen (cfg : Cfg) (s : Server) (c0 : Nat) (co : COut) (h : OthersOpen c0 s) :
+    OthersOpen c0 (applyOut cfg s c0 co).1 := by
+  cases co with
+  | bound => exact register_othersOpen s c0 h
+  | closed =>
+    intro e he hne
+    exact h e (dropEntries_mem s c0 e he).1 hne
+  | _ => exact h
+
+theorem applyOut_noRef (cfg : Cfg) (s : Server) (c0 : Nat) (co : COut) (hb : co ≠ .bound) :
+    (NoRef c0 s → NoRef c0 (applyOut cfg s c0 co).1) ∧ (co = .closed → NoRef c0 (applyOut cfg s c0 co).1) := by
+  cases co with
+  | bound => exact absurd rfl hb
+  | closed =>
+    refine ⟨fun _ e he => (dropEntries_mem s c0 e he).2, fun _ e he => (dropEntries_mem s c0 e he).2⟩
+  | send e => exact ⟨fun x => x, fun h => by cases h⟩
+  | emit st => exact ⟨fun x => x, fun h => by cases h⟩
+  | authed j => exact ⟨fun x => x, fun h => by cases h⟩
+  | ub => exact ⟨fun x => x, fun h => by cases h⟩
+
+theorem applyOuts_othersOpen (cfg : Cfg) (c0 : Nat) : ∀ (couts : List COut) (s : Server),
+    OthersOpen c0 s → OthersOpen c0 (applyOuts cfg s c0 couts).1 := by
+  intro couts
+  induction couts with
+  | nil => intro s h; exact h
+  | cons co rest ih => intro s h; exact ih _ (applyOut_othersOpen cfg s c0 co h)
+
+theorem applyOuts_noRef (cfg : Cfg) (c0 : Nat) : ∀ (couts : List COut) (s : Server), COut.bound ∉ couts →
+    (NoRef c0 s → NoRef c0 (applyOuts cfg s c0 couts).1) ∧ (COut.closed ∈ couts → NoRef c0 (applyOuts cfg s c0 couts).1) := by
+  intro couts
+  induction couts with
+  | nil => intro s _; exact ⟨fun x => x, fun h => by cases h⟩
+  | cons co rest ih =>
+    intro s hb
+    have hco : co ≠ .bound := fun e => hb (by simp [e])
+    have hrest : COut.bound ∉ rest := fun e => hb (by simp [e])
+    have h1 := applyOut_noRef cfg s c0 co hco
+    have h2 := ih (applyOut cfg s c0 co).1 hrest
+    refine ⟨fun hn => h2.1 (h1.1 hn), fun hm => ?_⟩
+    simp only [List.mem_cons] at hm
+    rcases hm with hm | hm
+    · exact h2.1 (h1.2 hm.symm)
+    · exact h2.2 hm
+
+theorem tablesOpen_step (cfg : Cfg) (s : Server) (op : Nat × Ev) (h : TablesOpen s) : TablesOpen (step cfg s op).1 := by
+  have hconn := (step_conns cfg s op op.1).1 rfl
+  have hclose := closeOk_connStep cfg (freshRes s.gen) (s.conns op.1) op.2
+  unfold step at hconn ⊢
+  simp only [] at hconn ⊢
+  -- the state handed to `applyOuts`
+  have hs1 : OthersOpen op.1 { setConn s op.1 (connStep cfg (freshRes s.gen) (s.conns op.1) op.2).conn with
+      gen := if (connStep cfg (freshRes s.gen) (s.conns op.1) op.2).used then s.gen + 1 else s.gen } := by
+    intro e he hne
+    simp only [setConn, hne, if_false]
+    exact h e he
+  have hoo := applyOuts_othersOpen cfg op.1 (connStep cfg (freshRes s.gen) (s.conns op.1) op.2).outs _ hs1
+  intro e he
+  by_cases hne : e.2 = op.1
+  case neg => exact hoo e he hne
+  · rw [hne, hconn]
+    rcases hclose with hsame | ⟨hcl, hnb⟩
+    · rw [hsame]
+      -- closed before: impossible, the tables did not reference it and an idle step adds nothing
+      cases hx : (s.conns op.1).closed with
+      | false => rfl
+      | true =>
+        exfalso
+        have hidle : (connStep cfg (freshRes s.gen) (s.conns op.1) op.2).outs = [] := by
+          unfold connStep; simp [hx, idle]
+        rw [hidle] at he
+        simp only [applyOuts] at he
+        have := h e he
+        rw [hne, hx] at this
+        cases this
+    · exfalso
+      have hnr := (applyOuts_noRef cfg op.1 (connStep cfg (freshRes s.gen) (s.conns op.1) op.2).outs
+        { setConn s op.1 (connStep cfg (freshRes s.gen) (s.conns op.1) op.2).conn with
+          gen := if (connStep cfg (freshRes s.gen) (s.conns op.1) op.2).used then s.gen + 1 else s.gen } hnb).2 hcl
+      exact hnr e he hne
+
+theorem tablesOpen_run (cfg : Cfg) : ∀ (ops : List (Nat × Ev)) (s : Server), TablesOpen s → TablesOpen (run cfg s ops).1 := by
+  intro ops
+  induction ops with
+  | nil => intro s h; exact h
+  | cons op ops ih => intro s h; exact ih _ (tablesOpen_step cfg s op h)
+
+theorem tablesOpen_init : TablesOpen init := by
+  intro e he; simp [init] at he
+
+/-- whoever `routeData` finds is registered in a table -/
+theorem route_found_in_tables (cfg : Cfg) (s : Server) (to : List Char) (found : List Nat) (h : route cfg s to = some found)
+    (d : Nat) (hd : d ∈ found) : ∃ e, (e ∈ s.byJid ∨ e ∈ s.byBare) ∧ e.2 = d := by
+  unfold route at h
+  simp only [] at h
+  split at h
+  · cases h
+  · split at h
+    · by_cases hr : resourceOf to = []
+      · simp only [hr, if_true] at h
+        split at h
+        · cases h
+        · injection h with h
+          subst h
+          simp only [List.mem_map, List.mem_filter] at hd
+          obtain ⟨e, he, rfl⟩ := hd
+          exact ⟨e, Or.inr he.1, rfl⟩
+      · simp only [hr, if_false] at h
+        split at h
+        · cases h
+        · injection h with h
+          subst h
+          have hd' := List.mem_of_mem_take hd
+          simp only [List.mem_map, List.mem_filter] at hd'
+          obtain ⟨e, he, rfl⟩ := hd'
+          exact ⟨e, Or.inl he.1, rfl⟩
+    · cases h
+
+
+theorem not_slash_mkBare (u d : List Char) (hu : ¬ badName u) (hd : '/' ∉ d) : '/' ∉ mkBare u d := by
+  unfold badName at hu
+  unfold mkBare
+  intro h
+  simp only [List.mem_append, List.mem_cons] at h
+  rcases h with h | h | h
+  · exact hu (Or.inr (Or.inl h))
+  · cases h
+  · exact hd h
 
 end Qx.C16
